@@ -104,7 +104,23 @@ impl Sanitizer {
         }
 
         if let Some(max_len) = self.max_length {
-            result.truncate(max_len);
+            // Leading separators must not count against the limit
+            if let Some(sep) = &self.separator {
+                result = result.trim_start_matches(sep).to_string();
+            }
+
+            // Truncate on a character boundary
+            if let Some((idx, _)) = result.char_indices().nth(max_len) {
+                result.truncate(idx);
+            }
+
+            // Truncation can expose a trailing separator or a numeric segment with leading zeros
+            if let Some(sep) = &self.separator {
+                result = result.trim_end_matches(sep).to_string();
+            }
+            if !self.keep_zeros {
+                result = self.remove_leading_zeros(&result);
+            }
         }
 
         if let Some(sep) = &self.separator {
